@@ -170,6 +170,10 @@ impl Scenario for C05 {
             p.feeder = EndCfg::default();
             p.reader = EndCfg { chunking: *r.pick(&[Chunking::Whole, Chunking::Random, Chunking::Byte]), ..Default::default() };
         }
+        if kind == "nodeloop" {
+            // decides the extras of the node loop: an over-long length at the end, a large non-message frame
+            p.fault_at = r.below(3_000_000);
+        }
         if kind == "nodeloop" || kind == "handover" {
             // lengths here are payload binary sizes
             p.lens = (0..n).map(|_| *r.pick(&[0u32, 0, 1, 10, 300, if fine { 3000 } else { 70_000 }])).collect();
@@ -224,7 +228,7 @@ impl Scenario for C05 {
             components_stubbed: &["TCP socket (SimNet pipe)", "peer (byte feeder / collector)"],
             assumptions: &["TCP semantics: bytes arrive in order, unmodified, until close/reset", "allocation size measured per thread by a counting global allocator"],
             fault_prefixes: &["fault.", "net."],
-            expected_probes: &["probe.c05.eof_in_prefix", "probe.c05.eof_in_body", "probe.c05.eof_between_frames", "probe.c05.overcap_refused", "probe.c05.zero_len_frame", "probe.c05.len_65536", "probe.c05.handover_coalesced", "probe.c05.frame_above_16_mib", "probe.c05.idle_beyond_read_timeout", "probe.c05.prefix_in_two_pieces"],
+            expected_probes: &["probe.c05.eof_in_prefix", "probe.c05.eof_in_body", "probe.c05.eof_between_frames", "probe.c05.overcap_refused", "probe.c05.zero_len_frame", "probe.c05.len_65536", "probe.c05.handover_coalesced", "probe.c05.frame_above_16_mib", "probe.c05.idle_beyond_read_timeout", "probe.c05.prefix_in_two_pieces", "probe.c05.mode_switched_after_construction", "probe.c05.large_frame_that_is_no_message"],
         }
     }
 }
@@ -259,14 +263,41 @@ async fn stream(w: &Arc<World>, p: &Plan) {
         }
     }
     // Phase W: the real framer writes; an independent collector reads the bytes.
-    let framer = MessageFramer::new(mode(p));
+    // built for this mode, or built for the other one and switched (what a transport does after the handshake)
+    let switched = p.fill_seed & 2 != 0;
+    let framer = if switched {
+        w.stat("probe.c05.mode_switched_after_construction");
+        let mut f = MessageFramer::new(if p.handshake_mode { FrameMode::Distribution } else { FrameMode::Handshake });
+        f.set_mode(mode(p));
+        f
+    } else {
+        MessageFramer::new(mode(p))
+    };
     let one_shot: Vec<u8> = msgs.iter().flat_map(|m| framer.frame_message(m)).collect();
     if one_shot != expect {
         w.violation("frame-bytes", format!("frame_message output differs from the protocol framing for lens {:?}", p.lens));
     }
     let (mut we, mut re, _ctl) = pipe(w, p.cap as usize, p.writer.clone(), EndCfg::default(), "W");
     let msgs2 = msgs.clone();
-    let writer = async {
+    let via_transport_w = p.via_transport;
+    let wmode = mode(p);
+    let w4 = w.clone();
+    let writer = async move {
+        if via_transport_w {
+            // FramedTransport::write (what Connection::send_raw uses): its framer starts in handshake mode
+            let (_dw, dummy_r, _c) = pipe(&w4, 0, EndCfg::default(), EndCfg::default(), "dummy-r");
+            let s = edp_client::verif::TcpStream::from_parts(Box::new(dummy_r), Box::new(we));
+            let mut t = edp_client::transport::FramedTransport::new(Duration::from_secs(600));
+            t.connect(s);
+            t.set_frame_mode(wmode);
+            for m in &msgs2 {
+                if let Err(e) = t.write(m).await {
+                    return Err(format!("FramedTransport::write failed: {}", e));
+                }
+            }
+            t.close();
+            return Ok(());
+        }
         for m in &msgs2 {
             if let Err(e) = framer.write_framed(&mut we, m).await {
                 return Err(format!("write_framed failed: {}", e));
@@ -309,7 +340,13 @@ async fn stream(w: &Arc<World>, p: &Plan) {
             }
         } else {
             let mut fre = fre;
-            let d = MessageDeframer::new(m);
+            let d = if switched {
+                let mut d = MessageDeframer::new(if m == FrameMode::Handshake { FrameMode::Distribution } else { FrameMode::Handshake });
+                d.set_mode(m);
+                d
+            } else {
+                MessageDeframer::new(m)
+            };
             for _ in 0..=n {
                 out.push(d.read_framed(&mut fre).await.map_err(|e| format!("{:?}", e.kind())));
             }
@@ -535,12 +572,22 @@ async fn nodeloop(w: &Arc<World>, p: &Plan) {
     use crate::wire::Val;
     let mut r = Rng::new(p.fill_seed);
     let mut stream = Vec::new();
-    let mut expect: Vec<(Val, Val)> = Vec::new();
+    let mut expect: Vec<Option<(Val, Val)>> = Vec::new();
+    // a large frame that is not a message (first byte not 112) somewhere in the stream: an error for that
+    // frame, the frames after it intact
+    let big_junk_at = if p.cap == 0 && p.cut_every == 0 && p.reader.chunking != Chunking::Byte && p.fault_at % 5 == 2 { Some((p.fault_at / 5) as usize % p.lens.len().max(1)) } else { None };
     for (i, l) in p.lens.iter().enumerate() {
         // ticks in between must be skipped
         if r.chance(1, 3) {
             stream.extend_from_slice(&wire::frame4(&[]));
             w.stat("probe.c05.zero_len_frame");
+        }
+        if big_junk_at == Some(i) {
+            let mut junk = r.bytes((1 << 20) + 1 + (p.fault_at % 700_000) as usize);
+            junk[0] = *r.pick(&[131u8, 0, 111, 113, 255]);
+            stream.extend_from_slice(&wire::frame4(&junk));
+            expect.push(None);
+            w.stat("probe.c05.large_frame_that_is_no_message");
         }
         let ctl = Val::tuple(vec![Val::int(2), Val::atom(""), wire::gen_pid(&mut r, Some("sut@host"))]);
         let mut body = r.bytes((*l).min(20_000_000) as usize);
@@ -552,7 +599,7 @@ async fn nodeloop(w: &Arc<World>, p: &Plan) {
         }
         let msg = Val::tuple(vec![Val::int(i as i128), Val::Bin(body)]);
         stream.extend_from_slice(&wire::frame4(&wire::pass_through(&ctl, Some(&msg))));
-        expect.push((ctl, msg));
+        expect.push(Some((ctl, msg)));
     }
     let overcap = p.fault_at % 3 == 1;
     if overcap {
@@ -568,8 +615,22 @@ async fn nodeloop(w: &Arc<World>, p: &Plan) {
     let w3 = w.clone();
     let reader = async move {
         let mut half = edp_client::verif::OwnedReadHalf::from_box(Box::new(fre));
-        for (i, (ctl, msg)) in expect.iter().enumerate() {
-            match edp_client::Connection::receive_message_from_read_half(&mut half, Duration::from_secs(600)).await {
+        for (i, item) in expect.iter().enumerate() {
+            let r = edp_client::Connection::receive_message_from_read_half(&mut half, Duration::from_secs(600)).await;
+            let Some((ctl, msg)) = item else {
+                match r {
+                    Ok(_) => {
+                        w3.violation("junk-accepted", format!("node loop: a frame of more than 1 MiB that is no message was returned as message {}", i));
+                        return;
+                    }
+                    Err(edp_client::Error::Io(e)) => {
+                        w3.violation("frame-error", format!("node loop: a large frame that is no message ended in an I/O error: {}", e));
+                        return;
+                    }
+                    Err(_) => continue,
+                }
+            };
+            match r {
                 Ok((c, m)) => {
                     let cv = to_val(&c.to_term());
                     let mv = m.as_ref().map(to_val);
